@@ -1,8 +1,8 @@
 from ._muxprops import make, COMMON_RULE
 
 SPEC = make("C02", "Properties.C02", ['C02_read_is_prefix', 'C02_data_equation', 'C02_reachable_inv', 'C02_clean_close_equal', 'C02_no_crosstalk_slots'],
-            [("pair", "single", 0.4), ("pair", "single-permits", 0.2), ("pair", "", 0.2), ("pair", "collide-drop-permits", 0.2)],
+            [("pair", "single", 0.4), ("pair", "single-permits", 0.2), ("pair", "", 0.2), ("pair", "collide-drop-permits", 0.1), ("pair", "collide-reuse", 0.2)],
             COMMON_RULE + "For this property additionally: single-flow scripts (one established stream, then only reads / "
             "plain, vectored and empty writes / shutdowns and message-by-message deliveries, 40-120 labels) whose read and "
             "write results are also compared with the one-direction flow model Flow/Core.v on which the multi-step "
-            "theorems are proved; a share of the scripts throttles the link (Permits labels: the sink refuses further messages until granted) so that link back-pressure is exercised.", "DESIGN.md §4 C02", flow=True)
+            "theorems are proved; a share of the scripts throttles the link (Permits labels: the sink refuses further messages until granted) so that link back-pressure is exercised.", "DESIGN.md §5 C02", flow=True)
